@@ -220,6 +220,13 @@ def emission_cells():
         ("tuple", [("f0", "slot", _OPT(I), "f0")]),
         ("tuple", [("f0", "slot", _OPT(I))]),
         ("tuple", [("f0", "slot", _OPT(I)), ("f1", "slot", _OPT(S))]),
+        # a NESTED omit predicate: Option<Option<_>> is omitted iff the OUTER option is None; Some(None) is written (as extant)
+        # and reads back as Some(None).  Labelled slot, header slot, implicit header slot, and a generic instantiation
+        ("named", [("s1", "slot", _OPT(_OPT(I))), ("s2", "slot", I)]),
+        ("named", [("h1", "header", _OPT(_OPT(I))), ("s1", "slot", I)]),
+        ("named", [("s1", "slot", _OPT(_OPT(I))), ("b", "body", S)]),
+        ("named", [("g", "slot", _OPT(_OPT(I)), None, "T"), ("n", "slot", I)]),
+        ("named", [("s1", "slot", _OPT(_OPT(I))), ("s2", "slot", _OPT(I)), ("s3", "slot", I)]),
     ]
 
 
@@ -231,7 +238,7 @@ def emission_fields(shape, spec):
         label = ent[3] if len(ent) > 3 else None
         labelled = role in ("attr", "header", "tag") or label is not None
         fields.append({"rust": str(len(fields)) if tuple_ else rust, "name": (label or rust) if (labelled or not tuple_) else "", "role": role,
-                       "ty": ty, "attrs": "", "needs_name": tuple_ and labelled})
+                       "ty": ty, "attrs": "", "needs_name": tuple_ and labelled, "param": len(ent) > 4 and ent[4] == "T"})
     return fields, (("newtype" if len(fields) == 1 else "tuple") if tuple_ else "named")
 
 
@@ -273,7 +280,7 @@ def combo_table():
     out.append(("KOE0", {"kind": "enum", "variants": variants}))
     # tuple / newtype VARIANTS with renamed and with positional optional fields
     variants = []
-    for j, i in enumerate(range(len(ecells) - 6, len(ecells))):
+    for j, i in enumerate(range(23, 29)):
         fields, sh = emission_fields(*ecells[i])
         variants.append({"vname": "V%d" % j, "tag": "V%d" % j, "tag_attr": False, "shape": sh, "fields": fields, "cell": ["emission", "", "", 0, ""]})
     out.append(("KOE1", {"kind": "enum", "variants": variants}))
@@ -295,15 +302,36 @@ def _fields_rs(fields, tuple_):
             at.append("#[serde(skip)]")
         if f["ty"] == _P("value"):
             at.append('#[serde(with = "valjson")]')
-        decl = _ty_rs(f["ty"]) if tuple_ else "%s: %s" % (f["rust"], _ty_rs(f["ty"]))
+        ty = "T" if f.get("param") else _ty_rs(f["ty"])
+        decl = ty if tuple_ else "%s: %s" % (f["rust"], ty)
         parts.append(" ".join(at + [decl]))
     return ", ".join(parts)
+
+
+def _nested_opt(t):
+    return t["c"] == "opt" and t["e"]["c"] == "opt"
 
 
 def combo_rust(table):
     o = ["// GENERATED by checks/c16.py (combo_table) - do not edit; the same table generates specs/FormDocCombos.tla", ""]
     names = []
+    concrete = {}
     for key, d in table:
+        if d["kind"] == "struct" and any(_nested_opt(f["ty"]) for f in d["fields"]):
+            # serde cannot tell Some(None) from None: a hand-made json rendering ({"some": ..}) instead
+            param = next((f for f in d["fields"] if f.get("param")), None)
+            conc = "%s<%s>" % (key, _ty_rs(param["ty"])) if param else key
+            concrete[key] = conc
+            o.append("#[derive(Form, Clone, Debug, PartialEq)]")
+            o.append("struct %s%s { %s }" % (key, "<T>" if param else "", _fields_rs(d["fields"], False)))
+            o.append("impl TJ for %s {" % conc)
+            o.append("    fn tj_to(&self) -> J { json!({ %s }) }" % ", ".join(
+                '"%s": %s' % (f["rust"], ("optopt_to(&self.%s)" if _nested_opt(f["ty"]) else "self.%s.tj_to()") % f["rust"]) for f in d["fields"]))
+            o.append("    fn tj_from(j: &J) -> Result<Self, String> { Ok(%s { %s }) }" % (key, ", ".join(
+                '%s: %s(&j["%s"])?' % (f["rust"], "optopt_from" if _nested_opt(f["ty"]) else "TJ::tj_from", f["rust"]) for f in d["fields"])))
+            o.append("}")
+            o.append("")
+            continue
         names.append(key)
         o.append("#[derive(Form, Serialize, Deserialize, Clone, Debug, PartialEq)]")
         if d["kind"] == "struct":
@@ -328,6 +356,8 @@ def combo_rust(table):
     o.append("    Some(match ty {")
     for n in names:
         o.append('        "%s" => run::<%s>(case),' % (n, n))
+    for n, conc in concrete.items():
+        o.append('        "%s" => run::<%s>(case),' % (n, conc))
     o.append("        _ => return None,")
     o.append("    })")
     o.append("}")
@@ -572,6 +602,9 @@ class Schema:
             if p == "blob":
                 return list(v)
             return v
+        if c == "opt" and t["e"]["c"] == "opt":
+            # (serde renders Some(None) and None alike: the harness uses {"some": ..} for the outer option)
+            return None if x["k"] == "none" else {"some": self.ty(t["e"], x["v"][0], sg)}
         if c == "opt":
             return None if x["k"] == "none" else self.ty(t["e"], x["v"][0], sg)
         if c == "quant":
